@@ -25,6 +25,9 @@ UseNow == IF NextSE(l) = 0 THEN 0 ELSE TraceLog[NextSE(l)].use
 \* consumption choices between lo and hi (inclusive)
 U(lo, hi) == IF TraceMode THEN {u \in {UseNow} : lo <= u /\ u <= hi}
              ELSE (IF lo < 0 THEN 0 ELSE lo)..hi
+\* deferred consumption (body states): when the step ahead consumed nothing (a body callback failed) the amount is not recorded; any
+\* positive amount will do because the failing callback cuts the micro-program before Use is reached
+UB(lo, hi) == IF TraceMode /\ UseNow = 0 THEN {hi} ELSE U(lo, hi)
 NEG == 0 - 1000000
 
 NOTSTARTED == 0  LINE == 1  HEADERS == 2  BODY == 3  TRAILER == 4  COMPLETE == 5
@@ -40,7 +43,7 @@ InitP == [in_state |-> "REQ_IDLE", out_state |-> "RES_IDLE", in_status |-> "OPEN
           txs |-> <<>>, in_tx |-> 0, out_tx |-> 0, onti |-> 0, odoate |-> FALSE,
           in_recv |-> "none", out_recv |-> "none", in_buf |-> FALSE, out_buf |-> FALSE,
           in_prev |-> "REQ_IDLE", out_prev |-> "RES_IDLE",
-          pipelined |-> FALSE, lastq |-> "none", lasts |-> "none", cl |-> 0, used |-> 0]
+          pipelined |-> FALSE, lastq |-> "none", lasts |-> "none", cl |-> 0, used |-> 0, pend |-> 0]
 
 TxLive(p, i) == i > 0 /\ i <= Len(p.txs) /\ p.txs[i].live
 IsComplete(p, i) == p.txs[i].rp = COMPLETE /\ p.txs[i].sp = COMPLETE
@@ -76,6 +79,9 @@ Seen100(i)    == [op |-> "seen100", tx |-> i]
 Ret(r)        == [op |-> "ret", v |-> r]
 Tp(id, i)     == [op |-> "tp", id |-> id, tx |-> i]
 EndCall(st, setst) == [op |-> "endcall", v |-> st, setst |-> setst]
+\* body states advance the read offset only AFTER the body callbacks succeeded (htp_request.c / htp_response.c: "if (rc != HTP_OK) return rc;"
+\* precedes "read_offset += bytes_to_consume"): the consumption of such an outcome is a micro-op behind the callbacks
+Use(u)        == [op |-> "use", u |-> u]
 
 SetIn(s) == Set("in_state", s)   SetOut(s) == Set("out_state", s)
 SetIst(s) == Set("in_status", s) SetOst(s) == Set("out_status", s)
@@ -112,7 +118,9 @@ ResCompleteProg(p, i) ==
   \o <<Yield, Fin(i, "prop"), Set("out_tx", 0), SetOut("RES_IDLE")>>
 
 \* htp_tx_state_response_headers(tx)
-ResHeadersProg(i, dec) == <<RecvFin("s"), Cb("response_headers", i, "prop"), SetTx(i, "dec", dec)>>
+\* the processing mode is decided before the hook runs, the decompressor is created after it: a failing RESPONSE_HEADERS callback leaves
+\* "compressed, but no decompressor" (body data -> ERROR) or plain processing
+ResHeadersProg(i, dec) == <<SetTx(i, "dec", IF dec = "active" THEN "gone" ELSE "none"), RecvFin("s"), Cb("response_headers", i, "prop"), SetTx(i, "dec", dec)>>
 
 (* ---------------- outcomes ---------------- *)
 O(u, p) == [use |-> u, prog |-> p]
@@ -123,16 +131,16 @@ ReqOutcomes(p) ==
   CASE p.in_state = "REQ_IDLE" ->
          IF avail = 0 THEN {O(0, <<Ret("DATA")>>)} ELSE {O(0, <<[op |-> "newtx_req"]>>)}
     [] p.in_state = "REQ_LINE" ->
-         LET lineok == {O(u, <<Set("in_buf", FALSE), SetTx(i, "m", m), SetTx(i, "p09", FALSE), Cb("request_uri_normalize", i, "prop"),
-                               Cb("request_line", i, "prop"), SetIn("REQ_PROTOCOL"), Ret("OK")>>) : u \in U(IF closed THEN 0 ELSE 1, avail), m \in Methods}
-                       \cup {O(u, <<Set("in_buf", FALSE), SetTx(i, "m", "GET"), SetTx(i, "p09", TRUE), Cb("request_uri_normalize", i, "prop"),
-                               Cb("request_line", i, "prop"), SetIn("REQ_PROTOCOL"), Ret("OK")>>) : u \in U(IF closed THEN 0 ELSE 1, avail)}
+         LET lineok == {O(u, <<Set("in_buf", FALSE), SetTx(i, "m", m), SetTx(i, "p09", FALSE), Cb("request_uri_normalize", i, "err"),
+                               Cb("request_line", i, "err"), SetIn("REQ_PROTOCOL"), Ret("OK")>>) : u \in U(IF closed THEN 0 ELSE 1, avail), m \in Methods}
+                       \cup {O(u, <<Set("in_buf", FALSE), SetTx(i, "m", "GET"), SetTx(i, "p09", TRUE), Cb("request_uri_normalize", i, "err"),
+                               Cb("request_line", i, "err"), SetIn("REQ_PROTOCOL"), Ret("OK")>>) : u \in U(IF closed THEN 0 ELSE 1, avail)}
              ignorable == {O(u, <<Set("in_buf", FALSE), Ret("OK")>>) : u \in U(IF closed THEN 0 ELSE 1, avail)}
              perr == {O(u, <<Ret("ERROR")>>) : u \in U(IF closed THEN 0 ELSE 1, avail)}
          IN
          IF closed /\ avail = 0 /\ ~p.in_buf THEN {O(0, <<Ret("DATA")>>)}
          ELSE IF closed /\ avail = 0 THEN lineok \cup ignorable \cup perr
-         ELSE {O(avail, <<Set("in_buf", TRUE), Ret("DATA_BUFFER")>>)} \cup lineok \cup ignorable \cup perr
+         ELSE {O(avail, <<Set("in_buf", p.in_buf \/ avail > 0), Ret("DATA_BUFFER")>>)} \cup lineok \cup ignorable \cup perr
     [] p.in_state = "REQ_PROTOCOL" ->
          IF ~p.txs[i].p09 THEN {O(0, <<SetIn("REQ_HEADERS"), SetRp(i, HEADERS), Ret("OK")>>)}
          ELSE {O(0, <<SetTx(i, "p09", FALSE), SetIn("REQ_HEADERS"), SetRp(i, HEADERS), Ret("OK")>>),
@@ -141,7 +149,7 @@ ReqOutcomes(p) ==
          IF closed THEN
             {O(0, <<Set("in_buf", FALSE), Tp("req_headers_closed", i), SetRp(i, TRAILER), Cb("request_trailer", i, "prop"), RecvFin("q"), SetIn("REQ_FINALIZE"), Ret("OK")>>),
              O(0, <<Ret("ERROR")>>)}
-         ELSE {O(avail, <<Set("in_buf", TRUE), Ret("DATA_BUFFER")>>)}
+         ELSE {O(avail, <<Set("in_buf", p.in_buf \/ avail > 0), Ret("DATA_BUFFER")>>)}
               \cup {O(u, <<Ret("ERROR")>>) : u \in U(1, avail)}
               \cup (IF p.txs[i].rp = HEADERS
                     THEN {O(u, <<Set("in_buf", FALSE), SetTx(i, "rc", c), RecvFin("q"), Cb("request_headers", i, "prop"),
@@ -156,7 +164,7 @@ ReqOutcomes(p) ==
          ELSE IF p.txs[i].st = "2xx" THEN {O(0, <<SetIn("REQ_CONNECT_PROBE_DATA"), Ret("OK")>>)}
          ELSE {O(0, <<SetIn("REQ_FINALIZE"), Ret("OK")>>)}
     [] p.in_state = "REQ_CONNECT_PROBE_DATA" ->
-         {O(avail, <<Set("in_buf", TRUE), Ret("DATA_BUFFER")>>)}
+         {O(avail, <<Set("in_buf", p.in_buf \/ avail > 0), Ret("DATA_BUFFER")>>)}
          \cup {O(u, ReqCompleteProg(p, i) \o <<Ret("OK")>>) : u \in U(0, avail)}
          \cup {O(u, <<SetIst("TUNNEL")>> \o (IF p.out_status \notin {"ERROR", "STOP"} THEN <<SetOst("TUNNEL")>> ELSE <<>>) \o <<Ret("OK")>>) : u \in U(0, avail)}   \* ERROR/STOP kept since fix 8c453f4
     [] p.in_state = "REQ_BODY_DETERMINE" ->
@@ -166,22 +174,22 @@ ReqOutcomes(p) ==
            [] OTHER -> {O(0, <<Ret("ERROR")>>)}
     [] p.in_state = "REQ_BODY_IDENTITY" ->
          IF avail = 0 THEN {O(0, <<Ret("DATA")>>)}
-         ELSE {O(avail, <<Cb("request_body_data", i, "err"), Ret("DATA")>>)}
-              \cup {O(u, <<Cb("request_body_data", i, "err"), SetIn("REQ_FINALIZE"), Ret("OK")>>) : u \in U(1, avail)}
+         ELSE {O(0, <<Cb("request_body_data", i, "err"), Use(avail), Ret("DATA")>>)}
+              \cup {O(0, <<Cb("request_body_data", i, "err"), Use(u), SetIn("REQ_FINALIZE"), Ret("OK")>>) : u \in UB(1, avail)}
     [] p.in_state = "REQ_BODY_CHUNKED_LENGTH" ->
-         {O(avail, <<Set("in_buf", TRUE), Ret("DATA_BUFFER")>>)}
+         {O(avail, <<Set("in_buf", p.in_buf \/ avail > 0), Ret("DATA_BUFFER")>>)}
          \cup {O(u, <<Set("in_buf", FALSE), SetIn("REQ_BODY_CHUNKED_DATA"), Ret("OK")>>) : u \in U(1, avail)}
          \cup {O(u, <<Set("in_buf", FALSE), SetIn("REQ_HEADERS"), SetRp(i, TRAILER), Ret("OK")>>) : u \in U(1, avail)}
          \cup {O(u, <<Ret("ERROR")>>) : u \in U(1, avail)}
     [] p.in_state = "REQ_BODY_CHUNKED_DATA" ->
          IF avail = 0 THEN {O(0, <<Ret("DATA")>>)}
-         ELSE {O(avail, <<Cb("request_body_data", i, "err"), Ret("DATA")>>)}
-              \cup {O(u, <<Cb("request_body_data", i, "err"), SetIn("REQ_BODY_CHUNKED_DATA_END"), Ret("OK")>>) : u \in U(1, avail)}
+         ELSE {O(0, <<Cb("request_body_data", i, "err"), Use(avail), Ret("DATA")>>)}
+              \cup {O(0, <<Cb("request_body_data", i, "err"), Use(u), SetIn("REQ_BODY_CHUNKED_DATA_END"), Ret("OK")>>) : u \in UB(1, avail)}
     [] p.in_state = "REQ_BODY_CHUNKED_DATA_END" ->
          {O(avail, <<Ret("DATA")>>)} \cup {O(u, <<SetIn("REQ_BODY_CHUNKED_LENGTH"), Ret("OK")>>) : u \in U(1, avail)}
     [] p.in_state = "REQ_FINALIZE" ->
          IF avail = 0 /\ ~(closed /\ p.in_buf) THEN {O(0, ReqCompleteProg(p, i) \o <<Ret("OK")>>)}
-         ELSE (IF closed THEN {} ELSE {O(avail, <<Set("in_buf", TRUE), Ret("DATA_BUFFER")>>)})
+         ELSE (IF closed THEN {} ELSE {O(avail, <<Set("in_buf", p.in_buf \/ avail > 0), Ret("DATA_BUFFER")>>)})
               \cup {O(u, <<Set("in_buf", FALSE)>> \o ReqCompleteProg(p, i) \o <<Ret("OK")>>) : u \in U(0, avail)}   \* empty / method-looking line (peeked)
               \cup {O(u, <<Set("in_buf", FALSE), Tp("req_finalize_body", i), Cb("request_body_junk", i, "err"), Ret("OK")>>) : u \in U(0, avail)}  \* junk as body
     [] p.in_state = "REQ_IGNORE_DATA_AFTER_HTTP_0_9" -> {O(avail, <<Ret("DATA")>>)}
@@ -203,11 +211,11 @@ ResOutcomes(p) ==
                                SetSp(i, HEADERS), Ret("OK")>>) : u \in U(lo, avail), s \in Statuses}
              perr == {O(u, <<Ret("ERROR")>>) : u \in U(lo, avail)}
          IN
-         (IF closed THEN {} ELSE {O(avail, <<Set("out_buf", TRUE), Ret("DATA_BUFFER")>>)})
+         (IF closed THEN {} ELSE {O(avail, <<Set("out_buf", p.out_buf \/ avail > 0), Ret("DATA_BUFFER")>>)})
          \cup ignorable \cup skipline \cup asbody_more \cup asbody_last \cup lineok \cup perr
     [] p.out_state = "RES_HEADERS" ->
          IF closed THEN {O(0, <<RecvFin("s"), Cb("response_trailer", i, "prop"), SetOut("RES_FINALIZE"), Ret("OK")>>)}
-         ELSE {O(avail, <<Set("out_buf", TRUE), Ret("DATA_BUFFER")>>)}
+         ELSE {O(avail, <<Set("out_buf", p.out_buf \/ avail > 0), Ret("DATA_BUFFER")>>)}
               \cup {O(u, <<Ret("ERROR")>>) : u \in U(1, avail)}
               \cup (IF p.txs[i].sp = HEADERS
                     THEN {O(u, <<Set("out_buf", FALSE), SetOut("RES_BODY_DETERMINE"), Ret("OK")>>) : u \in U(1, avail)}
@@ -244,26 +252,26 @@ ResOutcomes(p) ==
     [] p.out_state = "RES_BODY_IDENTITY_CL_KNOWN" ->
          IF closed THEN {O(0, <<SetOut("RES_FINALIZE")>> \o ResBodyEnd(p, i, "err") \o <<Ret("OK")>>)}
          ELSE IF avail = 0 THEN {O(0, <<Ret("DATA")>>)}
-         ELSE {O(avail, ResBody(p, i) \o <<Ret("DATA")>>)}
-              \cup {O(u, ResBody(p, i) \o <<SetOut("RES_FINALIZE")>> \o ResBodyEnd(p, i, "err") \o <<Ret("OK")>>) : u \in U(1, avail)}
+         ELSE {O(0, ResBody(p, i) \o <<Use(avail), Ret("DATA")>>)}
+              \cup {O(0, ResBody(p, i) \o <<Use(u), SetOut("RES_FINALIZE")>> \o ResBodyEnd(p, i, "err") \o <<Ret("OK")>>) : u \in UB(1, avail)}
     [] p.out_state = "RES_BODY_IDENTITY_STREAM_CLOSE" ->
-         IF closed THEN {O(avail, (IF avail > 0 THEN ResBody(p, i) ELSE <<>>) \o <<SetOut("RES_FINALIZE"), Ret("OK")>>)}
+         IF closed THEN {O(0, (IF avail > 0 THEN ResBody(p, i) \o <<Use(avail)>> ELSE <<>>) \o <<SetOut("RES_FINALIZE"), Ret("OK")>>)}
          ELSE IF avail = 0 THEN {O(0, <<Ret("DATA")>>)}
-         ELSE {O(avail, ResBody(p, i) \o <<Ret("DATA")>>)}
+         ELSE {O(0, ResBody(p, i) \o <<Use(avail), Ret("DATA")>>)}
     [] p.out_state = "RES_BODY_CHUNKED_LENGTH" ->
-         {O(avail, <<Set("out_buf", TRUE), Ret("DATA_BUFFER")>>)}
+         {O(avail, <<Set("out_buf", p.out_buf \/ avail > 0), Ret("DATA_BUFFER")>>)}
          \cup {O(u, <<Set("out_buf", FALSE), SetOut("RES_BODY_CHUNKED_DATA"), Ret("OK")>>) : u \in U(1, avail)}
          \cup {O(u, <<Set("out_buf", FALSE), SetOut("RES_HEADERS"), SetSp(i, TRAILER), Ret("OK")>>) : u \in U(1, avail)}
          \cup {O(u, <<SetOut("RES_BODY_IDENTITY_STREAM_CLOSE"), SetTx(i, "sc", "ident"), Ret("OK")>>) : u \in U(NEG, avail)}
     [] p.out_state = "RES_BODY_CHUNKED_DATA" ->
          IF avail = 0 THEN {O(0, <<Ret("DATA")>>)}
-         ELSE {O(avail, ResBody(p, i) \o <<Ret("DATA")>>)}
-              \cup {O(u, ResBody(p, i) \o <<SetOut("RES_BODY_CHUNKED_DATA_END"), Ret("OK")>>) : u \in U(1, avail)}
+         ELSE {O(0, ResBody(p, i) \o <<Use(avail), Ret("DATA")>>)}
+              \cup {O(0, ResBody(p, i) \o <<Use(u), SetOut("RES_BODY_CHUNKED_DATA_END"), Ret("OK")>>) : u \in UB(1, avail)}
     [] p.out_state = "RES_BODY_CHUNKED_DATA_END" ->
          {O(avail, <<Ret("DATA")>>)} \cup {O(u, <<SetOut("RES_BODY_CHUNKED_LENGTH"), Ret("OK")>>) : u \in U(1, avail)}
     [] p.out_state = "RES_FINALIZE" ->
          IF avail = 0 /\ ~(closed /\ p.out_buf) THEN {O(0, ResCompleteProg(p, i) \o <<Ret("OK")>>)}
-         ELSE (IF closed THEN {} ELSE {O(avail, <<Set("out_buf", TRUE), Ret("DATA_BUFFER")>>)})
+         ELSE (IF closed THEN {} ELSE {O(avail, <<Set("out_buf", p.out_buf \/ avail > 0), Ret("DATA_BUFFER")>>)})
               \cup {O(u, <<Set("out_buf", FALSE)>> \o ResCompleteProg(p, i) \o <<Ret("OK")>>) : u \in U(NEG, avail)}   \* looks like a status line: unread
               \cup {O(u, <<Set("out_buf", FALSE), Tp("res_finalize_body", i)>> \o (CASE p.txs[i].dec = "active" -> <<Cbs("response_body_junk", i, "ign")>> [] p.txs[i].dec \in {"gone", "unk"} -> <<Ret("ERROR")>> [] OTHER -> <<Cb("response_body_junk", i, "err")>>) \o <<Ret("OK")>>) : u \in U(IF closed THEN 0 ELSE 1, avail)}
     [] OTHER -> {}
@@ -280,10 +288,11 @@ AutoD(p, op) == IF AutoDestroy
                                !.out_tx = IF @ = op.tx THEN 0 ELSE @]
                 ELSE p
 RecvFinExpand(p, op) ==
+  \* the receiver hook is cleared whatever the last send returns (htp_connp_*_receiver_finalize_clear)
   IF op.d = "q" THEN (IF p.in_recv = "none" \/ p.in_tx = 0 THEN <<>>
-                      ELSE <<Cb(IF p.in_recv = "hdr" THEN "request_header_data" ELSE "request_trailer_data", p.in_tx, "prop"), Set("in_recv", "none")>>)
+                      ELSE <<Set("in_recv", "none"), Cb(IF p.in_recv = "hdr" THEN "request_header_data" ELSE "request_trailer_data", p.in_tx, "prop")>>)
   ELSE (IF p.out_recv = "none" \/ p.out_tx = 0 THEN <<>>
-        ELSE <<Cb(IF p.out_recv = "hdr" THEN "response_header_data" ELSE "response_trailer_data", p.out_tx, "prop"), Set("out_recv", "none")>>)
+        ELSE <<Set("out_recv", "none"), Cb(IF p.out_recv = "hdr" THEN "response_header_data" ELSE "response_trailer_data", p.out_tx, "prop")>>)
 
 \* the early yields of htp_transaction.c:1225-1250; rest = <<Fin, out_tx:=0, out_state:=RES_IDLE, ...>>
 YieldNow(p) == (p.in_status = "DATA_OTHER" /\ p.in_tx = p.out_tx) \/ p.odoate
@@ -324,6 +333,7 @@ Run(p, pr, o) ==
       [] op.op = "recvfin" -> Run(p, RecvFinExpand(p, op) \o rest, o)
       [] op.op = "yield" -> Run(YieldP(p), YieldProg(p, rest), o)
       [] op.op = "looped" -> Run(p, rest, o)
+      [] op.op = "use" -> Run([p EXCEPT !.pend = @ + op.u], rest, o)
       [] op.op = "seen100" -> Run([p EXCEPT !.txs[op.tx].c100 = @ + 1], rest, o)
       [] op.op = "tp" -> Run(p, rest, Ob!ObsStep(o, TpEv(op.id, op.tx)))
       [] op.op = "newtx_req" -> LET r == NewTxReq(p) IN Run(r.P, r.prog \o rest, o)
@@ -367,15 +377,19 @@ CloseEnter == /\ cur = "none" /\ P.cl \in {1, 2}
               /\ DataEnterFrom([P EXCEPT !.cl = @ + 1], IF P.cl = 1 THEN "req" ELSE "res", 0)
               /\ UNCHANGED obs
 
+\* deferred consumption reached while running a micro-program is taken from the chunk when the step settles
+Settle(p) == [p EXCEPT !.pend = 0, !.used = @ + p.pend]
 StepBegin ==
   /\ cur # "none" /\ prog = <<>>
   /\ \E o \in (IF cur = "req" THEN ReqOutcomes(P) ELSE ResOutcomes(P)) :
         /\ o.use <= avail
-        /\ avail' = avail - o.use
-        /\ LET r == Run([P EXCEPT !.used = @ + o.use], o.prog, obs) IN P' = r.P /\ prog' = r.prog /\ obs' = r.obs
+        /\ LET r == Run([P EXCEPT !.used = @ + o.use], o.prog, obs) IN
+             /\ P' = Settle(r.P) /\ prog' = r.prog /\ obs' = r.obs /\ avail' = avail - o.use - r.P.pend
   /\ UNCHANGED <<cur, calls>>
 
-CbResults(n) == IF n \in CbFail THEN {"OK", "STOP", "ERROR"} ELSE {"OK"}
+\* in trace mode the result of a callback is the recorded one (DECLINED continues like OK: htp_hook_run_all)
+TRes == LET r == TraceLog[l].ret IN IF r \in {"OK", "DECLINED"} THEN "OK" ELSE r
+CbResults(n) == IF TraceMode THEN {TRes} ELSE IF n \in CbFail THEN {"OK", "STOP", "ERROR"} ELSE {"OK"}
 
 \* one callback invocation, then run on to the next stop point
 CbStep(name) ==
@@ -388,14 +402,14 @@ CbStep(name) ==
                  ELSE IF op.f = "err" THEN <<Ret("ERROR")>> ELSE <<Ret(res)>>
            r == Run(P, pr, o1)
        IN /\ (op.op = "cbs" /\ ~TraceMode => op.k < 2)
-          /\ P' = r.P /\ prog' = r.prog /\ obs' = r.obs
-  /\ UNCHANGED <<cur, avail, calls>>
+          /\ P' = Settle(r.P) /\ prog' = r.prog /\ obs' = r.obs /\ avail' = avail - r.P.pend
+  /\ UNCHANGED <<cur, calls>>
 
 \* a "zero or more" callback that fires no more
 CbsDone ==
   /\ cur # "none" /\ prog # <<>> /\ Head(prog).op = "cbs"
-  /\ LET r == Run(P, Tail(prog), obs) IN P' = r.P /\ prog' = r.prog /\ obs' = r.obs
-  /\ UNCHANGED <<cur, avail, calls>>
+  /\ LET r == Run(P, Tail(prog), obs) IN P' = Settle(r.P) /\ prog' = r.prog /\ obs' = r.obs /\ avail' = avail - r.P.pend
+  /\ UNCHANGED <<cur, calls>>
 
 StreamOf(rc) == CASE rc \in {"DATA", "DATA_BUFFER"} -> "DATA"
                   [] rc = "DATA_OTHER" -> IF avail = 0 THEN "DATA" ELSE "DATA_OTHER"
@@ -497,7 +511,10 @@ TRet == /\ HasLine /\ Line.e = "Ret" /\ prog # <<>> /\ Head(prog).op = "endcall"
         /\ EndCallStep
         /\ P'.in_status = Line.ist /\ P'.out_status = Line.ost /\ Len(P.txs) = Line.ntx /\ P.onti = Line.onti
         /\ l' = l + 1
-TNext == TReset \/ TCall \/ TClose \/ TCloseEnter \/ TInnerEnd \/ TRetClose \/ TSB \/ TCb \/ TCbsDone \/ TTP \/ TSE \/ TRet
+\* records that carry no parser step (connection open, final dump, end of execution, teardown)
+\* and the file-data callbacks of the body processors (multipart / PUT), which are not steps of the connection parser
+TSkip == /\ HasLine /\ (Line.e \in {"Open", "Final", "End", "Destroy", "Fault"} \/ (Line.e = "Cb" /\ Line.n = "request_file_data")) /\ l' = l + 1 /\ UNCHANGED <<P, prog, cur, avail, calls, obs>>
+TNext == TSkip \/ TReset \/ TCall \/ TClose \/ TCloseEnter \/ TInnerEnd \/ TRetClose \/ TSB \/ TCb \/ TCbsDone \/ TTP \/ TSE \/ TRet
 TSpec == Init /\ [][TNext]_vars
 NotAccepted == l <= Len(TraceLog)
 ASSUME TLCSet(1, 0)
